@@ -40,7 +40,7 @@ PROPS.update({
         "rule": "single-level files of every codec/block size/interval, each re-trailed with a hand-assembled 21-byte V1 trailer; the same random cursor history is run on the V1 and V2 variants and compared with the model and with the sorted-list specification; non-trivial = file with >= 2 entries and >= 2 operations, distinct by file+history hash",
         "trusted": [],
         "assumptions": ["functional_extensionality_dep (Coq standard library axiom) is used by C10_cursor_depends_on_loader_only"],
-        "not_proved": ["C10_v1_same_results (every scan/seek/range/prefix result on a V1 file equals the V2 result) is reduced to C10_load_ignores_trailer + C10_cursor_depends_on_loader_only + 'every offset the cursor loads lies inside the body', the last of which needs the reader refinement R (DESIGN 4) and is so far validated by the correspondence only"],
+        "not_proved": ["identical results are proved for any two well-formed stores with the same content (C10_same_content_same_histories / ranges / prefixes) and a V1 file is proved to be such a store when its body is that of a single-level file of the writer model (C10_v1_twin); that the files the frozen 0.4.7 writer produces are well-formed stores is not a theorem (its code is not modelled) — they are read back through implementation, model and specification in every run; " + WPROG],
     },
 })
 
@@ -166,10 +166,10 @@ MANIFEST_TEXT = {
         "technique": "Rocq proof (exhaustive case analysis of the trailer reader over arbitrary byte strings) + model/implementation differential execution",
     },
     "C10": {
-        "text": "C10_v1_open proves that the 21-byte V1 trailer of the property text opens as version 1 with the stored count/codec and index_levels 0 for every body; C10_load_ignores_trailer and C10_cursor_depends_on_loader_only prove that block loads inside the body and hence all cursor results cannot depend on which trailer follows. The remaining step (all loaded offsets lie inside the body) is validated by running identical histories on V1 and V2 variants of generated files through implementation, model and specification.",
+        "text": "C10_v1_open proves that the 21-byte V1 trailer of the property text opens as version 1 with the stored count/codec and index_levels 0 for every body; C10_load_ignores_trailer and C10_cursor_depends_on_loader_only prove that block loads inside the body and hence all cursor results cannot depend on which trailer follows. C10_same_content_same_histories / _ranges / _prefixes prove that any two well-formed stores with the same content (whatever trailer version, block boundaries, index depth or codec) answer every admissible cursor history and every range and prefix query, forward and reverse, identically; C10_v1_twin proves that the body of a single-level file of the writer model under the version-1 trailer opens as version 1 and is such a store. Every run: identical histories and queries on V1 and V2 variants of generated files (all codecs, hand-assembled trailers with 64-bit counts, files of the frozen 0.4.7 writer) through implementation, model and specification.",
         "design_ref": "DESIGN.md §5 C10",
-        "note": "Partial proof: see not_proved in the evidence. Axiom: functional_extensionality_dep (stdlib). Trusted: kernel, transcription of metadata.rs/reader_cursor.rs (validated by correspondence), extraction, driver, harness.",
-        "technique": "Rocq proof (trailer layout, frame locality) + model/implementation/specification differential execution on V1 vs V2 files",
+        "note": "0.4.7-written files are validated, not proved, to be well-formed stores (see not_proved in the evidence). Axiom: functional_extensionality_dep (stdlib). Trusted: kernel, transcription of metadata.rs/reader_cursor.rs (validated by correspondence), extraction, driver, harness.",
+        "technique": "Rocq proof (trailer layout, frame locality, results as functions of the content via the cursor refinement) + model/implementation/specification differential execution on V1 vs V2 files",
     },
     "C14": {
         "text": "Theorems C14_varint / C14_varint_no_panic / C14_lengths prove, for all 2^32 lengths and arbitrary trailing bytes, that the transcribed varint_encode32/varint_decode32 round-trip in 1..5 bytes consuming exactly those bytes (base-128 digit arithmetic, no enumeration). The transcription is tied to src/varint.rs by running both on boundary neighbourhoods and stratified random values every run (thorough: all 2^32 values through the implementation against the statement).",
